@@ -159,10 +159,12 @@ func sortCandidates(candidates []treasure.Treasure, beaconType hydra.BeaconType,
 // slice. Used by the cap-bearing flows (PatchExpired, ShiftMatching)
 // which keep the engine's beacon-walk-based atomicity primitive and
 // rely on a wrapped selectionPredicate to fast-reject non-candidates.
+//
+// The result is never nil: an empty candidate set must reject every
+// record. (ShiftMatching's predicate treats a nil set as "no bucket
+// plan" and would otherwise evaluate only the residual filter — i.e.
+// match every record — when the indexed leg currently matches nothing.)
 func candidateKeySet(candidates []treasure.Treasure) map[string]struct{} {
-	if len(candidates) == 0 {
-		return nil
-	}
 	out := make(map[string]struct{}, len(candidates))
 	for _, t := range candidates {
 		out[t.GetKey()] = struct{}{}
